@@ -790,16 +790,22 @@ Lemma snd_exec_step_SLoad : forall sp p en s, snd (exec_step (Dds sp) (SLoad p) 
 Proof.
   intros sp p en s.
   change (exec_step (Dds sp) (SLoad p) en s) with
-    (match (match blookup p sp with Some k => Some k | None => blookup p (s_paths s) end) with
-     | None => (inl (DdsErr "NONE"), s)
-     | Some key =>
-       match blookup key (s_blobs s) with
-       | Some v => (inr (add_local en v), s)
-       | None => (inr (add_local en (RVal VNone)), s)
-       end
+    (match blookup p sp with
+     | Some key => match blookup key (s_blobs s) with
+                   | Some v => (inr (add_local en v), s)
+                   | None => (inl (DdsErr "LOAD_BEFORE_STORE"), s)
+                   end
+     | None => match blookup p (s_paths s) with
+               | None => (inl (DdsErr "NONE"), s)
+               | Some key => match blookup key (s_blobs s) with
+                             | Some v => (inr (add_local en v), s)
+                             | None => (inr (add_local en (RVal VNone)), s)
+                             end
+               end
      end : (outcome + env) * state).
-  destruct (match blookup p sp with Some k => Some k | None => blookup p (s_paths s) end) as [key|]; [|reflexivity].
-  destruct (blookup key (s_blobs s)); reflexivity.
+  destruct (blookup p sp) as [key|].
+  - destruct (blookup key (s_blobs s)); reflexivity.
+  - destruct (blookup p (s_paths s)) as [key|]; [|reflexivity]. destruct (blookup key (s_blobs s)); reflexivity.
 Qed.
 
 Section Rerun.
